@@ -3,6 +3,7 @@
 package catalog
 
 import (
+	"encoding/json"
 	"os"
 	"path/filepath"
 
@@ -181,6 +182,26 @@ func Ops() []Op {
 		{Name: "api.MultiFillFormFile", Class: "outdir", In: "samples/form/demo/english.pdf", Multi: true, Extra: map[string]string{"multi.json": "samples/form/multifill/json/english.json"},
 			Run: func(sb *fsx.Sandbox, i, o string) error { return api.MultiFillFormFile(i, sb.P("in/multi.json"), o, i, false, nil) }},
 		{Name: "api.MultiFillFormFile+merge", Class: "outdir", In: "samples/form/demo/english.pdf", Multi: true, Extra: map[string]string{"multi.json": "samples/form/multifill/json/english.json"},
+			Run: func(sb *fsx.Sandbox, i, o string) error { return api.MultiFillFormFile(i, sb.P("in/multi.json"), o, "batch.pdf", true, nil) }},
+		{Name: "api.MultiFillFormFile+merge1", Class: "outdir", In: "samples/form/demo/english.pdf", Multi: true, Extra: map[string]string{"multi.json": "samples/form/multifill/json/english.json"},
+			// merge mode with exactly one record: the single filled form becomes the merged output
+			Prep: func(sb *fsx.Sandbox, i string) error {
+				bb, err := os.ReadFile(sb.P("in/multi.json"))
+				if err != nil {
+					return err
+				}
+				var j map[string]any
+				if err := json.Unmarshal(bb, &j); err != nil {
+					return err
+				}
+				if forms, ok := j["forms"].([]any); ok && len(forms) > 1 {
+					j["forms"] = forms[:1]
+				}
+				if bb, err = json.Marshal(j); err != nil {
+					return err
+				}
+				return os.WriteFile(sb.P("in/multi.json"), bb, 0644)
+			},
 			Run: func(sb *fsx.Sandbox, i, o string) error { return api.MultiFillFormFile(i, sb.P("in/multi.json"), o, "batch.pdf", true, nil) }},
 		{Name: "api.MultiFillFormFile+csv", Class: "outdir", In: "samples/form/demo/english.pdf", Multi: true, Extra: map[string]string{"multi.csv": "samples/form/multifill/csv/english.csv"},
 			Run: func(sb *fsx.Sandbox, i, o string) error { return api.MultiFillFormFile(i, sb.P("in/multi.csv"), o, "batch.pdf", false, nil) }},
